@@ -33,7 +33,7 @@ func checkC07(w *World, r *Report) {
 	r.Explanation = "Decides structural conditions without which the seq/ack design cannot be right for all histories: (R07.1) 16-bit sequence/ack numbers are used only through ==, !=, +/- constants, stores and calls — never ordered comparisons or widening — so the queue logic is invariant under rotation of the starting number, i.e. across the wrap; (R07.2) the bounded memory of acknowledged numbers evicts from the head (oldest first) and every append is followed on all paths by a bound that restores the limit; (R07.3) every mutex Lock in the DNS packages is released on every path (or deferred); (R07.4) closures run under a queue mutex perform no blocking channel operation; (R07.5) every packet request/response built for sending acknowledges in.NextSeqNo-1 of the sender's own in-queue and every receive path feeds the peer's ack to out.UpdateAcked and the payload to in.Append of the same endpoint; (R07.6) the chunking loop's stride is guaranteed positive; (R07.13) the consumers of decoded answers read their ack/payload/option fields only on the Err == nil edge (an error answer carries zero values: acting on them acknowledges packet 0). Not decided: delivery, retransmission convergence, duplicate suppression over real fault histories, liveness."
 	r.NotDecided = []string{"delivery / retransmission convergence under loss histories", "successful write => delivered", "liveness once the path stops losing"}
 	r.Trusted = []string{"sync.Mutex semantics", "uint16 arithmetic wraps"}
-	r.Rule("R07.1", "sequence numbers are used only in wrap-safe ways", 10)
+	r.Rule("R07.1", "sequence numbers are used only in wrap-safe ways", 6)
 	r.Rule("R07.2", "ack memory is bounded and evicts oldest first", 2)
 	r.Rule("R07.3", "every Lock is released on all paths", 10)
 	r.Rule("R07.4", "no blocking channel operation in closures invoked under a mutex", 2)
@@ -95,13 +95,61 @@ func c07WrapSafe(w *World, r *Report, fns []*ssa.Function) { ruleWrapSafe(w, r, 
 func ruleWrapSafe(w *World, r *Report, rule string, fns []*ssa.Function) {
 	// seed: loads of seq fields and elements of ack lists; propagate through phi, +/- const, uint16 parameters of
 	// functions that receive a seq value
+	// parameters that receive a sequence number (or a list of them) at some call site: `containsSeqNo(q.acked, n)`
+	isU16 := func(v ssa.Value) bool {
+		b, ok := v.Type().Underlying().(*types.Basic)
+		return ok && b.Kind() == types.Uint16
+	}
+	isU16List := func(v ssa.Value) bool {
+		sl, ok := v.Type().Underlying().(*types.Slice)
+		if !ok {
+			return false
+		}
+		b, ok := sl.Elem().Underlying().(*types.Basic)
+		return ok && b.Kind() == types.Uint16
+	}
+	seqParam := map[*ssa.Parameter]bool{}
+	for round := 0; round < 3; round++ {
+		for _, g := range fns {
+			for _, c := range callsIn(g) {
+				sc := c.Common().StaticCallee()
+				if sc == nil || !inModule(sc) || len(sc.Blocks) == 0 {
+					continue
+				}
+				args := c.Common().Args
+				for i, a := range args {
+					if i >= len(sc.Params) || (!isU16(a) && !isU16List(a)) {
+						continue
+					}
+					isSeq := false
+					for _, root := range provenance(a, provOpts{}) {
+						if fa := asFieldAddr(root); fa != nil && isSeqField(fieldVarOf(fa)) {
+							isSeq = true
+						}
+						if u, ok := root.(*ssa.UnOp); ok {
+							if fa, ok := u.X.(*ssa.FieldAddr); ok && isSeqField(fieldVarOf(fa)) {
+								isSeq = true
+							}
+						}
+						if p, ok := root.(*ssa.Parameter); ok && seqParam[p] {
+							isSeq = true
+						}
+					}
+					if isSeq {
+						seqParam[sc.Params[i]] = true
+					}
+				}
+			}
+		}
+	}
 	for _, fn := range fns {
 		seq := map[ssa.Value]bool{}
-		changed := true
-		isU16 := func(v ssa.Value) bool {
-			b, ok := v.Type().Underlying().(*types.Basic)
-			return ok && b.Kind() == types.Uint16
+		for _, p := range fn.Params {
+			if seqParam[p] && isU16(p) {
+				seq[p] = true
+			}
 		}
+		changed := true
 		for changed {
 			changed = false
 			allInstrs(fn, func(in ssa.Instruction) {
@@ -119,6 +167,10 @@ func ruleWrapSafe(w *World, r *Report, rule string, fns []*ssa.Function) {
 						if ia, ok := x.X.(*ssa.IndexAddr); ok {
 							for _, root := range provenance(ia.X, provOpts{}) {
 								if fa := asFieldAddr(root); fa != nil && isSeqField(fieldVarOf(fa)) {
+									seq[v] = true
+									changed = true
+								}
+								if p, ok := root.(*ssa.Parameter); ok && seqParam[p] {
 									seq[v] = true
 									changed = true
 								}
@@ -293,7 +345,70 @@ func c07AckMemory(w *World, r *Report) {
 										}
 										return false
 									}
-									if canReach(caller, c, isBT, isRet) != nil {
+									// the bound may sit in a helper the caller runs (cleanAckedChunks), and may be run only where the
+									// helper reports that it appended (`if q.recordAck(n) { q.cleanAckedChunks() }`)
+									isBT2 := func(in2 ssa.Instruction) bool {
+										if isBT(in2) {
+											return true
+										}
+										if c2, ok := in2.(ssa.CallInstruction); ok {
+											if sc := c2.Common().StaticCallee(); sc != nil && inModule(sc) && sc != fn {
+												found := false
+												allInstrs(sc, func(x ssa.Instruction) {
+													if isBT(x) || isTrim(x) {
+														found = true
+													}
+												})
+												return found
+											}
+										}
+										return false
+									}
+									// the constant the helper returns on the paths that pass the append (if it is one)
+									var appendRet *bool
+									consistent := true
+									enumPaths(fn, nil, func(x ssa.Instruction) bool { return x == ssa.Instruction(st) }, nil, func(e pathExit) {
+										ret, isR := e.Last.(*ssa.Return)
+										if !isR || len(e.State.Events) == 0 {
+											return
+										}
+										if len(ret.Results) != 1 {
+											consistent = false
+											return
+										}
+										b, isC := constBool(e.State.Resolve(ret.Results[0]))
+										if !isC || (appendRet != nil && *appendRet != b) {
+											consistent = false
+											return
+										}
+										appendRet = &b
+									})
+									ci, _ := c.(ssa.Instruction)
+									cv, _ := c.(ssa.Value)
+									okc := enumPaths(caller, nil, func(x ssa.Instruction) bool { return x == ci || isBT2(x) }, nil, func(e pathExit) {
+										if _, isR := e.Last.(*ssa.Return); !isR {
+											return
+										}
+										// is there an execution of the helper that is not followed by the bound?
+										pending := false
+										for _, ev := range e.State.Events {
+											if ev == ci {
+												pending = true
+											} else {
+												pending = false
+											}
+										}
+										if !pending {
+											return
+										}
+										if consistent && appendRet != nil && cv != nil {
+											if t, known := e.State.Truth(cv); known && t != *appendRet {
+												return // the helper reported that nothing was appended
+											}
+										}
+										allBound = false
+									})
+									if !okc {
 										allBound = false
 									}
 								}
@@ -1090,15 +1205,27 @@ func c07Bookkeeping(w *World, r *Report) {
 				return
 			}
 			n++
-			okr := false
-			for _, root := range provenance(ret.Results[0], provOpts{}) {
+			// every non-nil origin of the result — through a helper such as firstPending() — is out[0]
+			okr, nroots := true, 0
+			for _, root := range provInter(ret.Results[0], 0) {
+				if isConstNil(root) {
+					continue
+				}
+				nroots++
+				isHead := false
 				if u, ok := root.(*ssa.UnOp); ok {
 					if ia, ok := u.X.(*ssa.IndexAddr); ok && isLoadOfField(ia.X, outF) {
 						if z, isC := constIntVal(ia.Index); isC && z == 0 {
-							okr = true
+							isHead = true
 						}
 					}
 				}
+				if !isHead {
+					okr = false
+				}
+			}
+			if nroots == 0 {
+				okr = false
 			}
 			if !okr {
 				bad = fmt.Sprintf("%s: NextChunk does not return the oldest unacknowledged packet (out[0])", w.Pos(ret.Pos()))
